@@ -1,12 +1,15 @@
 """Property id -> check class; engines; properties not (yet) claimed."""
-from . import e1, e2, e3
+from . import e1, e2, e3, e7
 
 PROPS = {}
 PROPS.update(e1.PROPS)
 PROPS.update(e3.PROPS)
 PROPS.update(e2.PROPS)
+PROPS.update(e7.PROPS)
 
 ENGINES = [
+    {"name": "E7-filesystem-effects", "path": "vh/e7.py", "serves_properties": ["C17", "C18"],
+     "kind_free_text": "TLC model checking of EditFs / FsPolicy over the abstract filesystem FsModel; fault injection at every logged operation; TLC trace validation (TraceFs.tla) of operation logs"},
     {"name": "E2-writepath-edit", "path": "vh/e2.py", "serves_properties": ["C06", "C07"],
      "kind_free_text": "TLC model checking of EditModel (write path + edit semantics); TLC -simulate behaviours replayed into create/edit; TLC trace validation (TraceEdit.tla)"},
     {"name": "E3-recheck", "path": "vh/e3.py", "serves_properties": ["C04", "C05", "C16"],
